@@ -193,6 +193,33 @@ Theorem C12_create_adv : forall hd ap x,
 Proof. exact c12_create_adv_iff. Qed.
 Print Assumptions C12_create_adv.
 
+(* C12_succeeds for ADV files: every batch an ADV batch with a valid header, the category rule, at most
+   9998 ADV entries in the file (File.Control of an ADV file is zero, so are the three figures Flatten
+   compares): every consolidated batch passes Create (C05's ADV branch of Batch.build + isCategory),
+   none is dropped, File.Create takes the createFileADV branch and succeeds; what is left open is
+   ADVFileControl.Validate of the new control (Arith.validate_adv_fctl) *)
+Theorem C12_succeeds_adv : forall hd sp ip ap inf inp r,
+  Forall (fun b => b_kind b = KStd /\ b_entries b = nil /\ b_adv b <> nil) inp -> inp <> nil ->
+  i_hdr_ok inf = true -> i_count inf = 0 -> i_debit inf = 0 -> i_credit inf = 0 ->
+  Forall (fun p => hd_adv (hd (fst p)) = true /\ hd_ok (hd (fst p)) = true) (adv_ids inp) ->
+  cat_rule inp -> BuildIAT.zlen (adv_ids inp) <= 9998 ->
+  flatten_full_spec GA GT GTT hd sp ip ap inf inp r ->
+  (fst r = FOk \/ (fst r = FErrValidate /\ file_ctl_ok GA (snd r) = false))
+  /\ af_iat (snd r) = nil /\ forallb sb_is_adv (af_std (snd r)) = true
+  /\ exists all, r = finish GA GT GTT hd sp ip ap inf all /\ flatten_spec inp (finalize all)
+       /\ length (af_std (snd r)) = length all /\ Forall (created_a GTT hd ap) (pre all).
+Proof. exact c12_succeeds_adv. Qed.
+Print Assumptions C12_succeeds_adv.
+
+Theorem C12_succeeds_adv_example :
+  (Forall (fun b => b_kind b = KStd /\ b_entries b = nil /\ b_adv b <> nil) ay_inp /\ ay_inp <> nil /\
+   Forall (fun p => hd_adv (ax_hd (fst p)) = true /\ hd_ok (ax_hd (fst p)) = true) (adv_ids ay_inp) /\
+   cat_rule ay_inp /\ BuildIAT.zlen (adv_ids ay_inp) <= 9998) /\
+  (let r := flatten_full_stable GA GT GTT ax_hd fx_sp fx_ip ax_ap ax_inf ay_inp in
+   fst r = FOk /\ length (af_std (snd r)) = 1%nat /\ af_actl (snd r) = Offsets.mkfctl 1 1 3 69414030 0 425).
+Proof. exact (conj ay_hyps ay_result). Qed.
+Print Assumptions C12_succeeds_adv_example.
+
 (* ... and consolidation knows no such limit: two ADV batches of 5000 entries with one header, each
    accepted by Create, on which the whole function returns File.Create's error with no batch added
    (known finding flatten:error:adv-sequence-limit; the real FlattenBatches is replayed on
